@@ -30,6 +30,7 @@ type Prog struct {
 	idFunc   map[string]*ssa.Function
 	structs  []*types.Named
 	ifaceObj map[string]Val
+	ifaceTyp map[string]types.Type
 	overlaid []string
 	sentinel map[*ssa.Global]int
 	notes    map[string]bool
@@ -38,7 +39,7 @@ type Prog struct {
 func loadProg(repoDir, verifDir string) (*Prog, error) {
 	p := &Prog{repoDir: repoDir, verifDir: verifDir, pkgs: map[string]*ssa.Package{}, fns: map[string]*ssa.Function{},
 		tags: map[string]int{}, globals: map[*ssa.Global]string{}, funcIDs: map[*ssa.Function]string{}, idFunc: map[string]*ssa.Function{},
-		ifaceObj: map[string]Val{}, sentinel: map[*ssa.Global]int{}, notes: map[string]bool{}}
+		ifaceObj: map[string]Val{}, ifaceTyp: map[string]types.Type{}, sentinel: map[*ssa.Global]int{}, notes: map[string]bool{}}
 	// contract files live in /repo behind the build tag; if one is missing
 	// (e.g. a checkout without the hook commits) the mirror kept in /verif is overlaid.
 	overlay := map[string][]byte{}
